@@ -218,7 +218,7 @@ CHECKS.update({
 
 CHECKS.update({
     'C05': dict(
-        technique='generated name-resolved OAL bodies placed as actions (function, bridge, operation, derived attribute) of synthesised '
+        technique='generated name-resolved OAL bodies (event statements included) placed as actions (function, bridge, operation, derived attribute, state) of synthesised '
                   'BridgePoint models; prebuild_action + gen_text_action on the real code; the tree of the generated text validated by '
                   'TLC (OalTrace.tla) against the specification tree of the original (OalSyntax!Unparse / StripB), plus regeneration '
                   'idempotence',
